@@ -194,6 +194,35 @@ def run(ctx):
     table(ctx, 'WIRING', 'WIRING:hour-views', [(di, hb) for di in (0, 7, 13, 29, 46) for hb in (0, 3, 6, 11)], wire_hour, wire_hour_orc,
           'SixtyCycleHour and LunarHour getters return the table entries of (their day pillar, their hour pillar)', lambda x: u'日%s 时%s' % (G.sixty(x[0]), G.BRANCHES[x[1]]), fn_site(p, 'SixtyCycleHour::get_recommends'))
 
+    # hour 23 on a scenario calendar: a FRESH lunar hour (memo empty) must use the next day's pillar, whichever getter is asked first
+    from calmodel import CalModel, typical_terms, synthetic_months
+    import calendar_oracle as CAL
+    cmh = CalModel(I, typical_terms(range(1999, 2003)), synthetic_months(2000, CAL.jdn(2000, 2, 5), 2, prev_months=3))
+
+    def fresh23(x):
+        k, order = x
+        n = CAL.jdn(2000, 3, 1) + k
+        lh = t.m(cmh.solar_time_n(n, 84600), 'get_lunar_hour')
+        if order == 0:
+            a = names(t.m(lh, 'get_avoids'))
+            r = names(t.m(lh, 'get_recommends'))
+        else:
+            r = names(t.m(lh, 'get_recommends'))
+            a = names(t.m(lh, 'get_avoids'))
+        sh = t.m(cmh.solar_time_n(n, 84600), 'get_sixty_cycle_hour')
+        return (r, a, names(t.m(sh, 'get_recommends')), names(t.m(sh, 'get_avoids')))
+
+    def fresh23_orc(x):
+        k, order = x
+        n = CAL.jdn(2000, 3, 1) + k
+        dp = (n + 50) % 60
+        hp = [G.sixty(i) for i in range(60)].index(G.STEMS[G.STEMS.index(G.FIVE_RATS[G.STEMS[dp % 10]])] + u'子')
+        d, h = t.sixty(dp), t.sixty(hp)
+        r, a = names(I.call('Taboo::get_hour_recommends', [d, h])), names(I.call('Taboo::get_hour_avoids', [d, h]))
+        return (r, a, r, a)
+    table(ctx, 'WIRING', 'WIRING:hour-23-fresh', [(k, o) for k in range(0, 12) for o in (0, 1)], fresh23, fresh23_orc,
+          'at 23:xx both hour views use the NEXT day\'s pillar, for a freshly built value and in either call order', lambda x: 'day+%d order=%d' % x, fn_site(p, 'LunarHour::get_avoids'))
+
     # ---- luck split
     names = t.names('GOD_NAMES')
 
